@@ -575,7 +575,7 @@ class pdb2sql(pdb2sql_base):
         # fix the python <--> sql indexes
         # if atnames == 'rowID':
         if 'rowID' in columns:
-            index = columns.split(',').index('rowID')
+            index = [c.strip() for c in columns.split(',')].index('rowID')
             for i in range(len(data)):
                 data[i][index] -= 1
 
